@@ -571,8 +571,20 @@ impl ParsedValue {
         key_path: &KeyPath,
     ) -> Result<Self> {
         match self {
-            ParsedValue::Default | ParsedValue::ForeignKey(_) | ParsedValue::Literal(_) => {
-                Ok(self.clone())
+            ParsedValue::Default | ParsedValue::Literal(_) => Ok(self.clone()),
+            // an already resolved foreign key can still contain variables to populate
+            ParsedValue::ForeignKey(inner_foreign_key) => {
+                let Ok(inner_foreign_key) = inner_foreign_key.try_borrow() else {
+                    return Err(Error::RecursiveForeignKey {
+                        locale: locale.clone(),
+                        key_path: key_path.to_owned(),
+                    }
+                    .into());
+                };
+                match &*inner_foreign_key {
+                    ForeignKey::Set(value) => value.populate(args, foreign_key, locale, key_path),
+                    ForeignKey::NotSet(_, _) => Ok(self.clone()),
+                }
             }
             ParsedValue::Variable { key, formatter } => match args.get(&*key.name) {
                 Some(value) => Ok(value.clone()),
